@@ -1393,13 +1393,20 @@ def empty_selection_means_all(rep):
             raise AnalysisError(f"{q}: the binding of the selection from kwargs not found")
         sel = set(names)
         tests = []
+
+        def empt(txt):
+            return any(txt in (f"{nm} == []", f"not {nm}", f"len({nm}) == 0", f"{nm} != []",
+                               nm, f"len({nm}) > 0", f"len({nm}) != 0", f"[] == {nm}",
+                               f"not len({nm})", f"bool({nm})") for nm in sel)
+        # flags holding the emptiness test (get_them_all = var == [])
+        flags = {a.targets[0].id for a in ast.walk(fn) if isinstance(a, ast.Assign)
+                 and len(a.targets) == 1 and isinstance(a.targets[0], ast.Name)
+                 and empt(unparse(a.value)) and a.targets[0].id not in sel}
         for t in ast.walk(fn):
-            if isinstance(t, ast.If) or isinstance(t, ast.IfExp):
+            if isinstance(t, (ast.If, ast.IfExp)):
                 txt = unparse(t.test)
-                for nm in sel:
-                    if txt in (f"{nm} == []", f"not {nm}", f"len({nm}) == 0", f"{nm} != []",
-                               nm, f"len({nm}) > 0", f"len({nm}) != 0"):
-                        tests.append(t)
+                if empt(txt) or txt in flags or txt in {"not " + f_ for f_ in flags}:
+                    tests.append(t)
         ok = bool(tests)
         if ok and fallback:
             ok = any(fallback in unparse(x) for t in tests for x in ast.walk(t)
@@ -1420,7 +1427,7 @@ def level_coverage(rep):
     key = f"{RD}::collect_overall_iterations::level-coverage"
     for lp in ast.walk(fn):
         if isinstance(lp, ast.For) and isinstance(lp.target, ast.Name) \
-                and rtext(fn, lp.iter).replace(" ", "") in ("range(rlmax+1)", "range(0,rlmax+1)"):
+                and unparse(lp.iter).replace(" ", "") in ("range(rlmax+1)", "range(0,rlmax+1)"):
             rep.ok("level-representative", key)
             return
     loops = [lp for lp in ast.walk(fn) if isinstance(lp, ast.While)]
